@@ -203,6 +203,8 @@ def run_small(shard):
 def text_cases(tier):
     out = [('stereo', s) for s in inputs.ring_stereo_family()]
     out += [('interdependent', s) for s in inputs.interdependent_family()]
+    out += [('isotopic hydrogen atom', s) for s in inputs.isoh_family()]
+    out += [('any-bond', s) for s in ('N~[Cu]', 'C~[Fe]~C', 'N~[Cu]~N.O', 'CN(C)~[Pd](Cl)Cl', 'C1CC1~[Cu]', 'O=C~[Ni](~C=O)~C=O', 'CC#N~[Cu]Cl')]
     out += [('hydride', s) for s in ('[BH4-]', 'N#C[BH3-]', 'CC1(C)OBOC1(C)C', '[AlH4-]', 'CC(C)C[AlH]CC(C)C', 'CCCC[SnH](CCCC)CCCC', '[NH3+][BH3-]', 'C[SiH3]', '[GeH4]', 'CB(C)C', 'OB(O)c1ccccc1',
                                      'C1CCC2CCCC1B2', '[LiH]', '[NaH]', 'C[PH2]', '[AsH3]', 'C[SeH]', '[MgH2]', 'C[ZnH]', 'CC[GaH2]')]
     out += [('corpus', s) for s in M.corpus(stride=8 if tier == 'quick' else 1)]
@@ -261,6 +263,13 @@ def run_text(shard):
                 r = Chem.RenumberAtoms(r0, list(p))
                 m = check_from(acc, r, ref_str, s, bad)
                 if m is None:
+                    continue
+                if fam == 'any-bond':
+                    # RDKit has three bond types (unspecified, zero, dative) where the library has one (order 8): RDKit -> chython must give order 8 and the molecule
+                    # the library itself reads from the text; the way back cannot restore which of the three it was
+                    acc.ood['bond of unspecified type: only the RDKit -> chython direction is defined'] += 1
+                    if any(m.bond(list(m)[b_.GetBeginAtomIdx()], list(m)[b_.GetEndAtomIdx()]).order != 8 for b_ in r.GetBonds() if str(b_.GetBondType()) == 'UNSPECIFIED'):
+                        bad('from_rdkit does not turn a bond of unspecified type into a coordinate (order 8) bond')
                     continue
                 # chython molecule that came from a renumbered RDKit molecule (neighbour orders not ascending) back to RDKit
                 check_to(acc, m, r, s, bad)
